@@ -24,14 +24,14 @@ MgrOf(ms, h) == ms.con[h].mgr
 
 (* ---- namespace operations on a container h ---- *)
 DoAddNs(ms, a) ==
-  LET r == AddNsF(ms.mgr[MgrOf(ms, a.h)], a.p, a.u) IN
+  LET r == AddNsF(ms.mgr[MgrOf(ms, a.h)], AncTbl(ms.mgr, MgrOf(ms, a.h)), a.p, a.u) IN
   Ok([ms EXCEPT !.mgr[MgrOf(ms, a.h)] = r.st], QN(r.ns[1], r.ns[2], <<>>))
 
 DoSetDefault(ms, a) ==
   Ok([ms EXCEPT !.mgr[MgrOf(ms, a.h)] = SetDefaultF(@, a.u)], NoQN)
 
 DoResQN(ms, a) ==
-  LET r == ResolveQNF(ms.mgr[MgrOf(ms, a.h)], a.p, a.ns, a.l) IN
+  LET r == ResolveQNF(ms.mgr[MgrOf(ms, a.h)], AncTbl(ms.mgr, MgrOf(ms, a.h)), a.p, a.ns, a.l) IN
   Ok([ms EXCEPT !.mgr[MgrOf(ms, a.h)] = r.st, !.handed = @ \cup Hand(a.h, r.q, "qn")], r.q)
 
 DoResStr(ms, a) ==
